@@ -35,6 +35,9 @@ m = {matcher}
 
 PLAIN_MATCHER = "r.sub == p.sub && r.obj == p.obj && r.act == p.act"
 FN_MATCHER = "r.sub == p.sub && r.obj == p.obj && probe(p.act, r.act)"
+# the user function comes FIRST: whatever it does (e.g. re-enter the enforcer) happens before the request and rule
+# fields of the remaining conjuncts are read
+FN_FIRST_MATCHER = "probe(p.act, r.act) && r.sub == p.sub && r.obj == p.obj"
 
 
 def probe(pact, ract):
@@ -129,9 +132,9 @@ def get_enforcer(effect, has_eft, use_fn, cls=None, default_effect=None):
         m.load_model_from_text(MODEL.format(pdef="sub, obj, act, eft, tag" if has_eft else "sub, obj, act, tag",
                                             effect=default_effect or effect,
                                             e2=("\ne2 = " + effect) if default_effect else "",
-                                            matcher=FN_MATCHER if use_fn else PLAIN_MATCHER))
+                                            matcher=(FN_FIRST_MATCHER if use_fn == "nest1" else FN_MATCHER) if use_fn else PLAIN_MATCHER))
         e = (cls or casbin.Enforcer)(m)
-        if use_fn == "nest":
+        if use_fn in ("nest", "nest1"):
             e.add_function("probe", make_nesting_probe(e))
         elif use_fn:
             e.add_function("probe", probe)
